@@ -1,7 +1,7 @@
 """C14 — schema validator accepts exactly valid chains (structural part). DESIGN §4 C14."""
 import ast
 
-from .common import ctx, returns, calls_in_ctx, reach_from_succ, site, srcs_text, const_bool, resolve_call
+from .common import ctx, returns, calls_in_ctx, reach_from_succ, site, srcs_text, const_bool, resolve_call, bound_args, test_awaited_call
 from ..flow import callee_attr
 from ..loader import AnalysisError, norm, FuncT
 from ..verdict import EnumDomain, enum_members, pruned_edges
@@ -159,7 +159,7 @@ def run(R):
                 pass
             elif s.kind == 'unpack' and s.extra == 2 and 'express_interest' in ast.unparse(s.expr):
                 call = [c for c in ast.walk(s.expr) if isinstance(c, ast.Call) and callee_attr(c) == 'express_interest'][0]
-                kw = {k.arg: ast.unparse(k.value) for k in call.keywords}
+                kw = {k_: ast.unparse(v_) for k_, v_ in bound_args(P, s.ctx, call).items()}
                 if kw.get('validator') != 'self.next_level':
                     probs.append((f'fetched certificates are validated with {kw.get("validator")}, not with next_level', call))
                 if kw.get('name', ast.unparse(call.args[0]) if call.args else None) != 'cert_name':
@@ -265,8 +265,8 @@ def run(R):
     okc = False
     if len(loops) == 1 and ast.unparse(loops[0].ast.iter) == 'args':
         cv = ast.unparse(loops[0].ast.target)
-        tests = [t for t in uw.cfg.nodes if t.kind == 'test' and isinstance(t.ast, ast.Await) and isinstance(t.ast.value, ast.Call)
-                 and ast.unparse(t.ast.value.func) == cv and [ast.unparse(a) for a in t.ast.value.args] == ['name', 'sig']]
+        tests = [t for t in uw.cfg.nodes if t.kind == 'test' and test_awaited_call(uw, t) is not None
+                 and ast.unparse(test_awaited_call(uw, t).func) == cv and [ast.unparse(a) for a in test_awaited_call(uw, t).args] == ['name', 'sig']]
         trues = [r for r in returns(uw) if const_bool(r.ast.value) is True]
         falses = [r for r in returns(uw) if const_bool(r.ast.value) is False]
         if len(tests) == 1 and trues and falses and len(trues) + len(falses) == len(returns(uw)):
